@@ -581,7 +581,7 @@ func (cs *Contracts) parseContractFile(path, pkgPath string) error {
 			}
 			h.Label, h.E = c.Label, c.E
 			cur.Hooks = append(cur.Hooks, h)
-		case "nopanic", "models-panics", "trusted", "deterministic", "arith-checked", "readonly-receiver", "order-insensitive", "checks-writeguards", "writes-only-fresh-slices":
+		case "nopanic", "models-panics", "trusted", "deterministic", "arith-checked", "readonly-receiver", "order-insensitive", "checks-writeguards", "writes-only-fresh-slices", "no-package-state":
 			cur.Flags[word] = true
 		default:
 			problem(ln, "unknown clause %q", word)
